@@ -13,7 +13,7 @@
    call, in any combination) are included. *)
 From Coq Require Import List NArith Bool String Permutation.
 From Verif.C17 Require Import Model Spec Proofs ProofsAttempt ProofsWinner ProofsApply ProofsEvery ProofsSound ProofsFull
-  ProofsView ProofsRefresh ProofsSync ProofsHistory ProofsOvertaken.
+  ProofsView ProofsRefresh ProofsSync ProofsHistory ProofsOvertaken ProofsChurn.
 Import ListNotations.
 Open Scope N_scope.
 
@@ -85,29 +85,12 @@ Theorem c17_converges : forall cfg p s e s' e',
 Proof. exact apply_converges_full. Qed.
 Print Assumptions c17_converges.
 
-Theorem c17_stale_removed_any_state_partial : forall cfg p s e s' e',
-  plan_simple p = true ->
-  NoDup (keys (e_routes e)) -> s_full s = true -> last_attempt_full cfg p s e = true ->
-  apply cfg p s e = (false, s', e') ->
-  forall k r, lookup rkey_eqb (s_desired s') k = None -> tbl cfg e' k = Some r ->
-       kroute_is_ours cfg s' r = true -> in_grace cfg (e_now e') s' (kr_ifx r) = true.
-Proof. exact apply_stale_removed. Qed.
-Print Assumptions c17_stale_removed_any_state_partial.
-
-Theorem c17_foreign_untouched_any_state_partial : forall cfg p s e s' e',
-  plan_simple p = true ->
-  NoDup (keys (e_routes e)) -> s_full s = true -> last_attempt_full cfg p s e = true ->
-  apply cfg p s e = (false, s', e') ->
-  forall kk r, lookup kkey_eqb (e_routes e) kk = Some r ->
-       (fst kk <> c_table cfg \/ (kroute_is_ours cfg s' r = false /\ lookup rkey_eqb (s_desired s') (snd kk) = None)) ->
-       lookup kkey_eqb (e_routes e') kk = Some r.
-Proof. exact apply_foreign_untouched. Qed.
-Print Assumptions c17_foreign_untouched_any_state_partial.
-
-(* The same three facts for a single attemptApply with the full resync pending, from ANY state whatsoever (not only
-   reachable ones), any kernel, any failure plan: this is the "from any starting kernel state and across netlink
-   failures" part; interface churn before the attempt is arbitrary because the state is arbitrary. *)
-Theorem c17_any_state_attempt_partial : forall cfg p w w',
+(* Convergence, stale removal and foreign-untouched for a single attemptApply with the full resync pending, from ANY state
+   whatsoever (even states no history reaches: inconsistent interface maps, arbitrary tracker contents), any kernel, any
+   plan_simple failure plan.  This is a complete statement about one attempt; for whole Applies (inline retry included)
+   from the states histories do reach, see c17_every_apply_converges / c17_stale_removed / c17_foreign_untouched below,
+   which replace the earlier *_any_state_partial theorems. *)
+Theorem c17_full_resync_attempt_from_any_state : forall cfg p w w',
   plan_simple p = true ->
   NoDup (keys (e_routes (w_env w))) ->
   s_full (w_st w) = true ->
@@ -121,7 +104,7 @@ Theorem c17_any_state_attempt_partial : forall cfg p w w',
         (kroute_is_ours cfg (w_st w') r = false /\ lookup rkey_eqb (s_desired (w_st w')) (snd kk) = None)) ->
        lookup kkey_eqb (e_routes (w_env w')) kk = Some r).
 Proof. exact full_attempt_converges. Qed.
-Print Assumptions c17_any_state_attempt_partial.
+Print Assumptions c17_full_resync_attempt_from_any_state.
 
 (* Tracker soundness: through every call, interface event, link change, clock step and every Apply with every failure
    plan (success or not), what the tracker believes to be in the kernel is in the kernel, as long as nobody else
@@ -245,6 +228,29 @@ Theorem c17_any_history : forall cfg e0 ops p s' e',
 Proof. exact any_history. Qed.
 Print Assumptions c17_any_history.
 
+(* Interface churn WITHOUT a resync request.  As c17_any_history, with a finer flag (known-in-sync, interfaces whose last
+   oper-state change is not reported yet): a link that changes its flags but keeps its ifindex (carrier loss / return,
+   admin down / up without the device going away) only puts its name on the pending list, the interface monitor's report
+   of the CURRENT state of a known interface takes it off again, and an Apply is covered as soon as the list is empty.
+   Still outside: links that go away or are renumbered, new links, and the kernel flushing Felix's routes while a
+   link is down (an outside route change) -- for those a QueueResync must precede the Apply (c17_any_history); the
+   missing lemma is the generalisation of JD_tell / resync_iface_J to a view that differs from the links in names and
+   ifindexes (not only oper state) together with a tracker invariant that tolerates the flushed routes until the
+   per-interface listing purges them. *)
+Theorem c17_any_history_with_flaps : forall cfg e0 ops p s' e',
+  c_fixB cfg = true -> wfl (e_links e0) -> NoDup (keys (e_routes e0)) ->
+  hist_ok2 cfg (true, []) ops (st0, e0) ->
+  let s := fst (run_st cfg ops (st0, e0)) in
+  let e := snd (run_st cfg ops (st0, e0)) in
+  fst (flag_end cfg (true, []) ops (st0, e0)) = true ->
+  (snd (flag_end cfg (true, []) ops (st0, e0)) = [] \/ s_full s = true) ->
+  plan_honest p = true ->
+  apply cfg p s e = (false, s', e') ->
+  ConvStale cfg s' e' /\ Fgn cfg e s' e' /\
+  (forall k, lookup rkey_eqb (s_desired s') k = winner cfg s' k) /\ VM cfg s' e'.
+Proof. exact any_history_flaps. Qed.
+Print Assumptions c17_any_history_with_flaps.
+
 (* The fault excluded by plan_simple / plan_honest, inside a theorem: whole-table dumps that yield part of the routes,
    are overtaken by somebody else changing the kernel (anything, any table) and fail with EINTR, any number of times,
    together with any other failures.  From ANY state with the full resync pending: if Apply reports success and the
@@ -294,6 +300,24 @@ Theorem c17_any_history_refuted_B :
     ok_history cfg_pinned ops obs = false /\ snd (last obs (true, [(kk 0 0 0, mkr 0 0 0 0 false 0 0 0)])) <> [].
 Proof. exists witness_B. vm_compute. split; [reflexivity|discriminate]. Qed.
 Print Assumptions c17_any_history_refuted_B.
+
+(* C: the pinned OnIfaceStateChanged keeps the state of the old ifindex when an interface shows up under a new one
+      without a reported deletion; an interface that later reuses that ifindex in the same state is never learned, not
+      even by a full resync, and its routes are not programmed although Apply() = nil. *)
+Definition cfg_AB : config := mkcfg (PMain ["cali"%string] true [] [3; 80] [80] false) 254 3 0 0 true true false.
+Definition witness_C : list op :=
+  [ESetLink "cali1" (mkl 95 true true); OIface "cali1" 95 IfUp;
+   ESetLink "cali1" (mkl 96 true true); EFlush 95; OIface "cali1" 96 IfUp;
+   EDelLink "cali1"; EFlush 96; OIface "cali1" 0 IfNP;
+   ESetLink "cali2" (mkl 95 true true);
+   ORouteUpdate 0 "cali2" (rk 0 0) (mkt TLinkLocal 0 0 0 0); OQueueResync; OApply []].
+
+Theorem c17_refresh_refuted_C :
+  exists ops, let obs := run cfg_AB ops (st0, env0) in
+    ok_history cfg_AB ops obs = false /\ obs = [(false, [])] /\
+    ok_history cfg_fixed ops (run cfg_fixed ops (st0, env0)) = true.
+Proof. exists witness_C. vm_compute. repeat split; reflexivity. Qed.
+Print Assumptions c17_refresh_refuted_C.
 
 (* with both patches the same histories satisfy the specification oracle *)
 Example c17_fixed_model_witnesses :
@@ -420,3 +444,46 @@ Example c17_example_overtaken :
   let p := [pl NRouteListAll 0 (FEintrP [rk 0 0] [(kk 254 0 0, None)])] in
   s_full s = true /\ last_attempt_full cfg_fixed p s e = true /\ fst (fst (apply cfg_fixed p s e)) = false /\ plan_simple p = false.
 Proof. vm_compute. repeat split; reflexivity. Qed.
+
+(* ---- non-vacuity of c17_any_history_with_flaps: a flap (down, reported; up, reported) after the first Apply and a
+        route asked for meanwhile; the next Apply runs with NO full resync pending and no QueueResync was issued ---- *)
+Definition hist_flap : list op :=
+  [OIface "cali1" 11 IfUp; ORouteUpdate 0 "cali1" (rk 0 0) (mkt TLinkLocal 0 0 0 0); OApply [];
+   ESetLink "cali1" (mkl 11 true false); OIface "cali1" 11 IfDown;
+   ORouteUpdate 0 "cali1" (rk 1 0) (mkt TLinkLocal 0 0 0 0);
+   ESetLink "cali1" (mkl 11 true true); OIface "cali1" 11 IfUp].
+
+Example c17_example_flaps :
+  hist_ok2 cfg_fixed (true, []) hist_flap (st0, e0_ex) /\
+  flag_end cfg_fixed (true, []) hist_flap (st0, e0_ex) = (true, []) /\
+  (let '(s, e) := run_st cfg_fixed hist_flap (st0, e0_ex) in
+   s_full s = false /\
+   let '(err, s', e') := apply cfg_fixed [] s e in
+   err = false /\ tbl cfg_fixed e' (rk 0 0) = Some (mkr 1 253 0 3 false 0 11 0) /\ tbl cfg_fixed e' (rk 1 0) = Some (mkr 1 253 0 3 false 0 11 0)).
+Proof.
+  split; [|split; [vm_compute; reflexivity|vm_compute; repeat split; reflexivity]].
+  cbn [hist_ok2 hist_flap op_ok2 op_ok fst snd].
+  repeat match goal with |- _ /\ _ => split end; try exact I.
+  - right. split; [discriminate|]. split; [intros n _; cbn; discriminate|left; reflexivity].
+  - vm_compute. repeat split; reflexivity.
+  - vm_compute. reflexivity.
+  - reflexivity.
+  - left. vm_compute. reflexivity.
+  - unfold wfl. vm_compute. split; [repeat constructor; cbn; intuition discriminate|].
+    split; [repeat constructor; cbn; intuition discriminate|].
+    intros n l [H|[H|[]]] Z; injection H as <- <-; discriminate Z.
+  - right. split; [discriminate|].
+    repeat match goal with |- context [s_n2i ?st] => let v := eval vm_compute in (s_n2i st) in change (s_n2i st) with v end.
+    split; [|right; left; reflexivity].
+    intros n Hn. cbn [lookup]. destruct (String.eqb n "cali1") eqn:E; [apply String.eqb_eq in E; congruence|].
+    destruct (String.eqb n "lo"); discriminate.
+  - vm_compute. repeat split; reflexivity.
+  - unfold wfl. vm_compute. split; [repeat constructor; cbn; intuition discriminate|].
+    split; [repeat constructor; cbn; intuition discriminate|].
+    intros n l [H|[H|[]]] Z; injection H as <- <-; discriminate Z.
+  - right. split; [discriminate|].
+    repeat match goal with |- context [s_n2i ?st] => let v := eval vm_compute in (s_n2i st) in change (s_n2i st) with v end.
+    split; [|right; left; reflexivity].
+    intros n Hn. cbn [lookup]. destruct (String.eqb n "cali1") eqn:E; [apply String.eqb_eq in E; congruence|].
+    destruct (String.eqb n "lo"); discriminate.
+Qed.
